@@ -4,7 +4,7 @@ import TunnoxModel.Spec.C03
 Line protocol for C03 (see harness/c03/main.go):
   case: seq ips <i0,i1,..> nc <n> rl <B> : <ev> ; <ev> ; …
         ev: fc <c> <ty> | hs <c> <ty> <k|z> <-|j|h<key>.L<d>|h<key>.P<d>> | mal <c> | emp <c>
-            | ban/unban/bl/unbl/refill <ip> | blr/unblr <range> | restart | wl/unwl <ip> | unexp <k> | issue <fail|ok> | exp/del/strip <k> | sec <k> <u|d|e|l>     ty: c | t | e | x | a
+            | ban/unban/bl/unbl/refill <ip> | blr/unblr <range> | restart | wl/unwl <ip> | unexp/claim/bind/ext <k> | issue <fail|ok> | exp/del/strip <k> | sec <k> <u|d|e|l>     ty: c | t | e | x | a
         nc: a number (all usable) or one letter per client u|d|e|l; key: <k> | E | C<k> | P<k>
   obs:  per event  <ok|new<k>|ch<n>|fail|none|-> c <conn>… r <lookup>… b <bits> l <bits>   joined by ` ; `
         conn: - | <0|1>/<id|->/<pending|->      lookup: <conn> | -
@@ -74,6 +74,9 @@ def eventOf : List String → Option Event
   | ["wl", i] => i.toNat?.map .wl
   | ["unwl", i] => i.toNat?.map .unwl
   | ["unexp", k] => k.toNat?.map .unexp
+  | ["claim", k] => k.toNat?.map .claim
+  | ["bind", k] => k.toNat?.map .bind
+  | ["ext", k] => k.toNat?.map .ext
   | ["issue", b] => if b == "fail" then some (.issue true) else if b == "ok" then some (.issue false) else none
   | ["refill", i] => i.toNat?.map .refill
   | ["exp", k] => k.toNat?.map .exp
